@@ -455,7 +455,12 @@ class Surrogates(Cached):
         for _ in range(n_iterations):
             #  Get Fourier phases of R surrogate
             r_fft = np.fft.rfft(R, axis=1)
-            r_phases = r_fft / np.abs(r_fft)
+            #  (a vanishing component, e.g. the mean of normalized data,
+            #  has no phase: use phase zero instead of dividing by zero)
+            r_amps = np.abs(r_fft)
+            r_fft[r_amps == 0] = 1.0
+            r_amps[r_amps == 0] = 1.0
+            r_phases = r_fft / r_amps
 
             #  Transform back, replacing the actual amplitudes by the desired
             #  ones, but keeping the phases exp(iψ(i)
